@@ -174,7 +174,13 @@ func (e *SpecEnv) eval(s SExpr) *Val {
 		env := &envc
 		var vars []*Term
 		for _, p := range n.Vars {
-			b := Bound(p.Name, specSort(p.Type))
+			// the SMT name carries the nesting depth: a predicate macro whose body binds `k` can then be applied to an
+			// argument that mentions the caller's own bound `k` without capturing it
+			nm := p.Name
+			if e.nbound > 0 {
+				nm = fmt.Sprintf("%s_%d", p.Name, e.nbound)
+			}
+			b := Bound(nm, specSort(p.Type))
 			vars = append(vars, b)
 			env = env.with(p.Name, valOfSort(b))
 		}
@@ -622,6 +628,13 @@ func (e *SpecEnv) call(n SCall) *Val {
 			sfail("off(slice)")
 		}
 		return &Val{K: VInt, T: v.Off}
+	case "arr":
+		// identity of the backing array of a slice (or of a map): for aliasing / freshness statements
+		v := e.eval(n.Args[0])
+		if v.K != VSlice && v.K != VMap {
+			sfail("arr(slice)")
+		}
+		return &Val{K: VInt, T: v.T}
 	case "storeOf":
 		// name of the KV store opened with the given store key (interface value)
 		v := e.eval(n.Args[0])
@@ -873,7 +886,7 @@ func (x *Exec) declareSpec(sf *SpecFunc) {
 	if sf.Opaque && !x.revealed[sf.Name] {
 		return
 	}
-	env := &SpecEnv{x: x, st: x.specState(), vars: map[string]*Val{}, pkg: sf.Pkg}
+	env := &SpecEnv{x: x, st: x.specState(), vars: map[string]*Val{}, pkg: sf.Pkg, nbound: 1}
 	var vars []*Term
 	var sorts []string
 	for _, p := range sf.Params {
@@ -940,7 +953,7 @@ func (x *Exec) lemmaInstance(lm *Lemma, args []*Val) *Term {
 
 // lemmaAxiom is the universally quantified form (needs triggers).
 func (x *Exec) lemmaAxiom(lm *Lemma) *Term {
-	env := &SpecEnv{x: x, st: x.specState(), vars: map[string]*Val{}, pkg: lm.Pkg}
+	env := &SpecEnv{x: x, st: x.specState(), vars: map[string]*Val{}, pkg: lm.Pkg, nbound: 1}
 	var vars []*Term
 	for _, p := range lm.Params {
 		b := Bound(p.Name, specSort(p.Type))
